@@ -223,6 +223,8 @@ pub(crate) async fn handle_run<'a>(
         return Err(MonorailError::from("No configured targets"));
     }
     let mut tracking_run = get_next_tracking_run(cfg, &tracking_table)?;
+    #[cfg(pnordahl_monorail_verif)]
+    crate::verif::point("run.id_chosen", &tracking_run.id.to_string());
     let run_path = setup_run_path(cfg, tracking_run.id, work_path)?;
     let commands = get_all_commands(cfg, &input.commands, &input.sequences)?;
     let mut argmap = ArgMap::new();
@@ -301,6 +303,8 @@ pub(crate) async fn handle_run<'a>(
         &argmap,
     )?;
 
+    #[cfg(pnordahl_monorail_verif)]
+    crate::verif::point("run.planned", "");
     let run_output = run_internal(
         cfg,
         plan,
@@ -311,11 +315,17 @@ pub(crate) async fn handle_run<'a>(
     )
     .await?;
 
+    #[cfg(pnordahl_monorail_verif)]
+    crate::verif::point("run.executed", "");
     // Store the run output record
     store_run_output(&run_output, &run_path)?;
+    #[cfg(pnordahl_monorail_verif)]
+    crate::verif::point("run.result_stored", "");
 
     // Update the run counter
     tracking_run.save()?;
+    #[cfg(pnordahl_monorail_verif)]
+    crate::verif::point("run.pointer_saved", "");
     Ok(run_output)
 }
 
@@ -602,7 +612,11 @@ fn setup_run_path(
     let run_path = cfg.get_run_path(work_path).join(format!("{}", run_id));
     // remove the run_path path if it exists, and create a new one
     std::fs::remove_dir_all(&run_path).unwrap_or(());
+    #[cfg(pnordahl_monorail_verif)]
+    crate::verif::point("run.slot_removed", "");
     std::fs::create_dir_all(&run_path)?;
+    #[cfg(pnordahl_monorail_verif)]
+    crate::verif::point("run.slot_created", "");
     Ok(run_path)
 }
 
@@ -679,6 +693,8 @@ async fn process_task_results(
 ) -> Result<bool, MonorailError> {
     let mut failed = false;
     while let Some(join_res) = js.join_next().await {
+        #[cfg(pnordahl_monorail_verif)]
+        crate::verif::point("run.join_next", "");
         match join_res {
             Ok(task_res) => {
                 match task_res {
@@ -910,6 +926,8 @@ async fn process_plan(
             let mut js = tokio::task::JoinSet::new();
             let (mut compressor, compressor_clients) = initialize_compressor(plan_targets, 2)?;
             let compressor_handle = thread::spawn(move || compressor.run());
+            #[cfg(pnordahl_monorail_verif)]
+            crate::verif::point("run.group_begin", command);
             // schedule all plantargets for this command
             info!(
                 num = plan_targets.len(),
@@ -941,6 +959,8 @@ async fn process_plan(
                     )
                     .await?
                     {
+                        #[cfg(pnordahl_monorail_verif)]
+                        crate::verif::point("run.sched_failed", &plan_target.path);
                         // prevent any additional tasks from being scheduled
                         failed = true;
                     }
@@ -955,6 +975,8 @@ async fn process_plan(
                     );
                 }
             }
+            #[cfg(pnordahl_monorail_verif)]
+            crate::verif::point("run.group_scheduled", command);
             if process_task_results(
                 js,
                 plan_targets,
@@ -968,16 +990,24 @@ async fn process_plan(
                 failed = true;
             }
 
+            #[cfg(pnordahl_monorail_verif)]
+            crate::verif::point("run.group_joined", command);
             crr.target_groups.push(result_target_group);
 
             for client in compressor_clients {
+                #[cfg(pnordahl_monorail_verif)]
+                crate::verif::point("run.shutdown_send", "");
                 client.0.shutdown().await?;
+                #[cfg(pnordahl_monorail_verif)]
+                crate::verif::point("run.shutdown_send", "");
                 client.1.shutdown().await?;
             }
             // Unwrap for thread dyn Any panic contents, which isn't easily mapped to a MonorailError
             // because it doesn't impl Error; however, the internals of this handle do, so they
             // will get propagated.
             compressor_handle.join().unwrap()?;
+            #[cfg(pnordahl_monorail_verif)]
+            crate::verif::point("run.group_end", command);
         }
         results.push(crr);
     }
@@ -1016,6 +1046,8 @@ fn store_run_output(run_output: &RunOutput, run_path: &path::Path) -> Result<(),
         .truncate(true)
         .open(run_path.join(result::RESULT_OUTPUT_FILE_NAME))
         .map_err(|e| MonorailError::Generic(e.to_string()))?;
+    #[cfg(pnordahl_monorail_verif)]
+    crate::verif::point("run.result_opened", "");
     let bw = BufWriter::new(run_result_file);
     let mut encoder = zstd::stream::write::Encoder::new(bw, 3)?;
     serde_json::to_writer(&mut encoder, run_output)?;
